@@ -40,6 +40,8 @@ impl EdwardsProjective {
     #[verifier::external_body]
     pub fn is_zero(&self) -> (r: bool) ensures r == ark_is_zero(repr(*self)) { unimplemented!() }
     #[verifier::external_body]
+    pub fn into_affine(self) -> (r: EdwardsAffine) ensures r == of_aff(to_affine(repr(self))) { unimplemented!() }
+    #[verifier::external_body]
     pub fn double(&self) -> (r: EdwardsProjective) ensures repr(r) == te_double(repr(*self)) { unimplemented!() }
     #[verifier::external_body]
     pub fn mul_bigint_slice(&self, other: &[u64]) -> (r: EdwardsProjective)
@@ -50,6 +52,11 @@ impl EdwardsAffine {
     pub const fn new_unchecked(x: Fq, y: Fq) -> (r: EdwardsAffine) ensures r.x == x, r.y == y { EdwardsAffine { x, y } }
     #[verifier::external_body]
     pub fn zero() -> (r: EdwardsAffine) ensures arepr(r) == id4() { unimplemented!() }
+    // Affine::is_zero (affine.rs:87): exactly (0, 1)
+    #[verifier::external_body]
+    pub fn is_zero(&self) -> (r: bool) ensures r == (self.x.val() == 0 && self.y.val() == 1) { unimplemented!() }
+    #[verifier::external_body]
+    pub fn into_group(self) -> (r: EdwardsProjective) ensures r == of_p4(arepr(self)) { unimplemented!() }
     #[verifier::external_body]
     pub fn mul_bigint_slice(&self, other: &[u64]) -> (r: EdwardsProjective)
         ensures repr(r) == ark_mul(limbs_val(other@), arepr(*self))
